@@ -34,16 +34,17 @@ def families(tier):
                 for seq in itertools.product('DW', repeat=ln):
                     if seq.count('D') <= N or seq[0] == 'W' or seq[-1] == 'W':
                         continue
-                    for hshape in ('ret', 'pause'):
+                    for hshape in ('ret', 'pause', 'some_without_handler'):
                         i = 0
                         main = []
                         for c in seq:
                             if c == 'D':
                                 i += 1
-                                main.append(('disp', 'A', f'X{i}', 'ff'))
+                                # 'some_without_handler': every other event has no handler at all (it completes with no results)
+                                main.append(('disp', 'A', f'Z{i}' if (hshape == 'some_without_handler' and i % 2 == 1) else f'X{i}', 'ff'))
                             else:
                                 main.append(('pause',))
-                        hs = [dict(bus='A', pat='X', name='hx', prog=[('pause',), ('ret', 1)] if hshape == 'pause' else [('ret', 1)])]
+                        hs = [dict(bus='A', pat='X', name='hx', prog=[('pause',), ('ret', 1)] if hshape in ('pause', 'some_without_handler') else [('ret', 1)])]
                         add('c13.stream', f'{"".join(seq)}-{hshape}', N, hs, main)
         for extra, mode, cshape, then in itertools.product((1, 2), ('ff', 'await', 'mixed'), ('ret', 'pause'), ('pause', 'ret')):
             k = N + extra
